@@ -367,9 +367,15 @@ def lookup_order(prog, chk):
     if len(gets) == 1 and nexts:
         gb, gt, _ = gets[0]
         sw = R.find_switch_on_discr(gv, gt["t"], gt["dest"][0])
+        if not sw and not gt["dest"][1]:
+            # the hit is tested after being handed on (out of a spliced helper, through a reference ..)
+            sws = R.discr_switches_of(gv, gt["dest"][0])
+            sw = sws[0] if len(sws) == 1 else None
         if sw:
             sb, st = sw
             some_t = [tgt for v, tgt in st["vals"] if v == 1]
+            if not some_t and any(v == 0 for v, _tgt in st["vals"]):
+                some_t = [st["otherwise"]]
             if some_t:
                 reg = gv.reach(some_t)
                 first_hit = nexts[0][0] not in reg and any(gv.term(x)["k"] == "ret" for x in reg)
@@ -400,6 +406,24 @@ def scope_vars_complete(prog, chk):
     """push_element hands the element's whole attribute map to the new scope: every attribute shadows, whatever its name"""
     b = prog.body(PUSH)
     chk.touch(b)
+    # decided on the value push_element pushes, as the affine evaluator computes it (through whatever constructor /
+    # helper builds the scope): a scope whose variables are exactly get_attrs() of the element
+    try:
+        from sa import algebra as A
+
+        ev = A.Evaluator(prog, watch=("push",), opaque=["svgdx::element::SvgElement::get_attrs"], transparent=("fstr",))
+        ev.summary(PUSH)
+        scopes = [c["args"][-1] for c in ev.calls if c["name"] == "push" and c["args"] and not A.is_form(c["args"][-1]) and c["args"][-1] is not None and c["args"][-1][0] == "struct" and "vars" in c["args"][-1][1]]
+        if len(scopes) == 1 and not ev.incomplete and scopes[0][1]["vars"] is not None:
+            got = A.canon(scopes[0][1]["vars"])
+            if re.fullmatch(r"get_attrs\(\$1\)", got):
+                chk.ok("A10.scope-vars", "push_element:with_vars", b.where(), "the scope pushed for an element has as its variables the element's complete attribute map (get_attrs(), unfiltered)")
+                return
+            if "$1" in got and "get_attrs" in got:
+                chk.bad("A10.scope-vars", "push_element:with_vars", b.where(), f"the scope's variables are {got[:160]}, not the element's complete attribute map get_attrs($1): some attributes of an enclosing <g>/<reuse> no longer shadow outer values")
+                return
+    except Exception:  # noqa: BLE001 - an idiom the evaluator does not know: the call-shape reading below decides
+        pass
     wv = b.call_sites(R.path_endswith("Scope::with_vars"))
     if len(wv) != 1:
         chk.anchor_missing("A10.scope-vars", f"push_element: expected one Scope::with_vars call, found {len(wv)}")
